@@ -141,6 +141,16 @@ PLAN = {
             "level_note": "hashers bounded; agreement is not derived from contracts yet",
             "modulo_bounded": ["HasherV2", "HasherHybrid", "FileHasher", "TorrentAssembler / TorrentFileV2 / TorrentFileHybrid"],
             "trusted": []},
+    "C14": {"functions": [], "harness": True,
+            "level_text": "frame: every call site reachable from commands.rebuild is classified from the real call graph; the file system is reached "
+                          "only through utils.copypath, which is proved for all file-system states: it never touches the source, never touches a "
+                          "destination that already has at least the source's length, creates only absent directories, and what it writes at "
+                          "dest is a byte-identical copy of the source.  That copies are attempted only after the hash matched, with the recorded "
+                          "name / size and at the assigned path, is decided by the bounded harness (decoys, pre-populated destinations, repeats)",
+            "level_note": "Path(dest).parts uninterpreted with the listed assumption that proper prefixes differ from dest; call-site clauses in "
+                          "_find_matches / _match_v2 bounded",
+            "modulo_bounded": ["PieceNode._find_matches", "Metadata._match_v1 / _match_v2", "Assembler.*"],
+            "trusted": ["os.mkdir creates only absent directories", "shutil.copy writes its destination only"]},
 }
 
 
